@@ -17,7 +17,7 @@ from ..oracle import npyfmt, spectrum as O
 LEVEL = "exploration"
 NEEDS = ["harness", "cli", "shim"]
 RULE = ("writer: shapes with 1-24 axes (mostly length 1, one or two longer with 1-5 digits) chosen so that len(header dict) covers all 64 residues "
-        "mod 64, x value kinds incl. nan/inf/-0/subnormals, at L and via `view -O npy` (stdout and -o with the path absent / empty / holding a longer file / being the input; with and without a --precision option next to it); reader: 10 dtypes x {<, >, |} x versions "
+        "mod 64, x value kinds incl. nan/inf/-0/subnormals, at L and via `view -O npy` (also to a non-blocking stdout pipe with a slow reader: give up with a diagnostic, or deliver the file exactly) (stdout and -o with the path absent / empty / holding a longer file / being the input; with and without a --precision option next to it); reader: 10 dtypes x {<, >, |} x versions "
         "{1.0, 2.0, 3.0} written by numpy with boundary values (int min/max, f4 subnormal/max/inf/nan, u8 2^63..2^64-1), x 7 header spellings "
         "(quotes, spacing, key order, trailing commas) and unaligned / over-padded headers (each first confirmed loadable by numpy); input on stdin in pieces that are no multiple of the element size; rejects: Fortran order (2-D, 3-D, with singleton axes, and the bare flag on 1-D / degenerate shapes), dtypes c16 c8 ? f2 S5 U3 M8 m8 O V4. Non-trivial: every case; "
         "distinct = digest(file bytes).")
@@ -280,6 +280,37 @@ def check_reader_pieces(S, p):
         S.case(key=digest([data.hex()[:2000], piece]), nontrivial=True)
 
 
+def check_nonblocking_stdout(S, p):
+    """`view -O npy` of a few hundred KB to a NON-BLOCKING stdout pipe with a slow reader (EAGAIN whenever the pipe is full): the run may
+    give up with a diagnostic, but if it reports success the reader has received exactly the file - nothing repeated, nothing missing."""
+    rng = rng_for(S.seed, "c15", p["name"], "nonblock")
+    n = rng.choice([20000, 30000, 50000])
+    vals = [rng.uniform(-1000, 1000) for _ in range(n)] + [213000.0, 4106.0, 10.0] * 40      # doubles whose bytes contain 0x0A
+    rng.shuffle(vals)
+    shape = [len(vals)] if rng.random() < 0.5 else [2, len(vals) // 2]
+    vals = vals[:O_prod(shape)]
+    inp = GS.npy_bytes(shape, vals)
+    for args in (["view", "-O", "npy"], ["view", "--precision", "4"]):
+        ref = cli.sfs(args, stdin=inp)
+        for rep in range(2):
+            r = cli.sfs_nonblocking_stdout(args, inp, pause=rng.choice([0.001, 0.003]))
+            S.count("nonblocking_stdout_runs")
+            S.observe("nonblocking_stdout_outcome", "exit %s%s" % (r.rc, " with diagnostic" if r.err.strip() else ""))
+            gave_up = r.rc != 0 and r.err.strip() and not r.panicked and not r.signal
+            if not gave_up and not (r.rc == 0 and r.out == ref.out):
+                S.viol("C15:writer:nonblocking-stdout", "[C %s, %d values, to a non-blocking pipe with a slow reader] rc %s stderr %r; %d bytes arrived, the file has %d%s" % (
+                    " ".join(args), len(vals), r.rc, r.err[:160], len(r.out), len(ref.out),
+                    "" if r.out[:len(ref.out)] != ref.out else " (the file, then more)"), {"level": "C", "argv": r.argv, "values": len(vals), "transport": "O_NONBLOCK pipe, slow reader"})
+            S.case(key=digest([args, len(vals), rep, "nonblock"]), nontrivial=True)
+
+
+def O_prod(shape):
+    p_ = 1
+    for x in shape:
+        p_ *= x
+    return p_
+
+
 def shard(S, p):
     if "replay" in p:
         w = p["replay"]
@@ -292,3 +323,5 @@ def shard(S, p):
     check_writer(S, p)
     check_reader(S, p)
     check_reader_pieces(S, p)
+    if p["i"] % 8 == 5:
+        check_nonblocking_stdout(S, p)
